@@ -30,7 +30,7 @@ func init() {
 	engine.Register(&engine.Check{
 		ID:         "C11",
 		Technique:  "exhaustive enumeration of payload lengths and socket kinds on two real stacks in the deterministic world; explicit-state search over all interleavings of sends, reads, shutdown and close against a reference queue; stateless model checking (cooperative scheduler, all schedules) of concurrent readers versus packet delivery",
-		Rule:       "len: every payload length 0..1472 x {IPv4, IPv6, v4-mapped on a dual-stack socket} x sender kinds {bound *, bound specific, connected, unbound} x receiver kinds {bound *, bound specific, connected}; big: lengths {1473, 2000, 65507, 65508, 65527, 65528, 65535, 65536}; seq: all sequences of length <=6 over {send by sender 1/2 (sizes 1,2,3 units), read, shutdown(read), close} with a receive buffer of two datagrams; coop: every schedule of 2 readers + 1 delivering thread; distinct = distinct input/sequence/schedule",
+		Rule:       "len: every payload length 0..1472 x {IPv4, IPv6, v4-mapped on a dual-stack socket} x sender kinds {bound *, bound specific, connected, unbound} x receiver kinds {bound *, bound specific, connected}; big: lengths {1473, 2000, 65507, 65508, 65527, 65528, 65535, 65536}; seq: all sequences of length <=6 over {send by sender 1/2 (sizes 0, 12000, 20000, 30000 bytes against the fixed 32 KiB receive buffer), read, shutdown(read), close} under receive-buffer pressure; coop: every schedule of 2 readers + 1 delivering thread; distinct = distinct input/sequence/schedule",
 		Assumes:    []string{"a datagram is accepted if it fits (queued bytes + its size <= buffer size); when it does not fit it may be dropped, whole"},
 		Jobs:       c11Jobs,
 		Run:        c11Run,
@@ -246,14 +246,13 @@ type c11Seq struct {
 const c11Unit = 100
 
 func c11SeqAlphabet() []string {
-	return []string{"s1.send(100)", "s1.send(200)", "s2.send(100)", "s2.send(300)", "read", "shutdown(read)", "close", "s1.send(0)"}
+	return []string{"s1.send(12000)", "s1.send(20000)", "s2.send(12000)", "s2.send(30000)", "read", "shutdown(read)", "close", "s1.send(0)"}
 }
 
 func c11NewSeq() engine.SeqSys {
 	c := c11NewWorld()
-	s := &c11Seq{c: c, names: c11SeqAlphabet(), bufMax: 2 * c11Unit}
+	s := &c11Seq{c: c, names: c11SeqAlphabet(), bufMax: 32 * 1024} // the UDP receive buffer is fixed at 32 KiB
 	s.rcv = c.b.NewSock(udp.ProtocolNumber, ipv4.ProtocolNumber).EP
-	must(s.rcv.SetSockOpt(tcpip.ReceiveBufferSizeOption(s.bufMax)))
 	must(s.rcv.Bind(tcpip.FullAddress{Port: c11RecvPort}, nil))
 	s.s1 = c.a.NewSock(udp.ProtocolNumber, ipv4.ProtocolNumber).EP
 	must(s.s1.Bind(tcpip.FullAddress{Port: 6001}, nil))
@@ -304,13 +303,13 @@ func (s *c11Seq) Apply(i int) *engine.Violation {
 	}
 	switch i {
 	case 0:
-		return send(s.s1, 6001, 100)
+		return send(s.s1, 6001, 12000)
 	case 1:
-		return send(s.s1, 6001, 200)
+		return send(s.s1, 6001, 20000)
 	case 2:
-		return send(s.s2, 6002, 100)
+		return send(s.s2, 6002, 12000)
 	case 3:
-		return send(s.s2, 6002, 300)
+		return send(s.s2, 6002, 30000)
 	case 7:
 		return send(s.s1, 6001, 0)
 	case 4:
